@@ -698,7 +698,14 @@ class CtxAwareTransformer(NodeTransformer):
         ups = set()
         for targ in node.targets:
             if isinstance(targ, Tuple | List):
-                ups.update(leftmostname(elt) for elt in targ.elts)
+                # names bound anywhere inside a (possibly nested) target
+                stack = list(targ.elts)
+                while stack:
+                    elt = stack.pop()
+                    if isinstance(elt, Tuple | List):
+                        stack.extend(elt.elts)
+                    else:
+                        ups.add(leftmostname(elt))
             elif isinstance(targ, BinOp):
                 newnode = self.try_subproc_toks(node)
                 if newnode is node:
